@@ -458,7 +458,18 @@ def extract_docstring(node: Str) -> Tuple[int, str]:
         # TODO: remove me when python3.7 is not supported
         value = node.s
     lineno = extract_docstring_linenum(node)
-    return lineno, inspect.cleandoc(value)
+    return lineno, encodable_text(inspect.cleandoc(value))
+
+def encodable_text(text: str) -> str:
+    """
+    Lone surrogates (C{"\\ud800"}) are legal in a string literal but can't be encoded 
+    in the output: show them as escape sequences instead.
+    """
+    try:
+        text.encode('utf-8')
+    except UnicodeEncodeError:
+        text = text.encode('utf-8', 'backslashreplace').decode('utf-8')
+    return text
 
 
 def infer_type(expr: ast.expr) -> Optional[ast.expr]:
